@@ -67,3 +67,8 @@ def fill(add):
         "Every public operation (35 base operations, sync and async variants, 3 flavours) is run with every key of the hostile/confusable set on cold and warm caches with the root given absolute, relative and through a symlink; every path-taking or descriptor-writing system call is recorded with its resolved path: mutating calls only inside the root or on the explicit destination, touched paths derived only from SHA-1(key)/digest, read-only calls issue no mutating call and leave the tree unchanged.",
         "Trusted: the monitor's system-call table and its mutating/non-mutating classification; lexical path resolution.",
         "DESIGN.md 4/C15", "fsx")
+    add("C06", "fault_enumeration",
+        "exhaustive fault enumeration on index files with a differential oracle (independent reference decoder) and a containment check against the write history",
+        "Bucket histories written by the library (all histories up to length 3 over short/long-non-ASCII/foreign/tombstone; 12 representative in quick) x every damage (each record cut at every byte length, every single-bit flip, each separating newline deleted, 11 garbage lines at every boundary, transposed/duplicated records and fragments) x 0-2 further appends; every lookup entry point of the three flavours and list_sync must equal the reference decoding of the damaged bytes, untouched records must survive, no entry that was not written verbatim.",
+        "Trusted: vlib/ref.py decoder (CR handling of a line is accepted in any of three variants as long as all entry points agree).",
+        "DESIGN.md 4/C06", "seqx")
